@@ -96,8 +96,36 @@ pub fn body(id: u64, len: usize) -> Vec<u8> {
     v
 }
 
+static TOUCH_MAGIC: AtomicU64 = AtomicU64::new(0x7e57_ab1e_0dd5_eed5);
+
+/// Read every byte of a received payload and branch on a digest of all of them: under valgrind
+/// memcheck (or MemorySanitizer) a byte the transport never wrote makes this branch depend on an
+/// uninitialised value, wherever in the payload it sits and whatever the comparison with the
+/// expected body did before.
+pub fn touch_all(data: &[u8]) {
+    let mut h: u64 = 0xcbf29ce484222325;
+    for &b in data {
+        h = (h ^ b as u64).wrapping_mul(0x100000001b3);
+    }
+    if h == TOUCH_MAGIC.load(Ordering::Relaxed) {
+        TOUCH_MAGIC.store(h.wrapping_add(1), Ordering::Relaxed);
+    }
+    // The branch above may be compiled to a conditional move, which memcheck does not report.
+    // Handing the digest to a system call is reported reliably ("Syscall param write(buf) points to
+    // uninitialised byte(s)"); the descriptor is invalid on purpose. Only done when asked for.
+    if definedness_probe() {
+        unsafe { libc::write(-1, &h as *const u64 as *const libc::c_void, 8) };
+    }
+}
+
+pub fn definedness_probe() -> bool {
+    static ON: std::sync::OnceLock<bool> = std::sync::OnceLock::new();
+    *ON.get_or_init(|| std::env::var("VERIF_DEFINEDNESS").map(|v| v == "1").unwrap_or(false))
+}
+
 /// First offset at which `data` differs from `body(id, data.len())`, or a length mismatch.
 pub fn body_diff(id: u64, want_len: usize, data: &[u8]) -> Option<String> {
+    touch_all(data);
     if data.len() != want_len {
         return Some(format!("length {} != sent {}", data.len(), want_len));
     }
@@ -540,6 +568,11 @@ pub fn watch<T: Send + 'static>(
     let hard_cap_ms = 120_000u64;
     let t0 = now_ns();
     let mut settled_at: Option<u64> = None;
+    // deadlock rule: even if the scenario never "settles" (e.g. the senders are blocked too), a
+    // process tree in which every thread sleeps without using CPU for 45 s cannot make progress
+    let mut idle_since: Option<u64> = None;
+    let mut last_tree: Vec<(i32, i32, char, u64)> = Vec::new();
+    let mut last_tree_at = 0u64;
     loop {
         match rx.recv_timeout(Duration::from_millis(20)) {
             Ok(Ok(v)) => {
@@ -561,6 +594,25 @@ pub fn watch<T: Send + 'static>(
         let now = now_ns();
         if settled_at.is_none() && settled() {
             settled_at = Some(now);
+        }
+        if settled_at.is_none() && now - last_tree_at > 1_000_000_000 {
+            let cur = tree_snapshot(gettid());
+            let idle = !last_tree.is_empty() && cur.len() == last_tree.len()
+                && cur.iter().zip(last_tree.iter()).all(|(x, y)| x.0 == y.0 && x.1 == y.1 && (x.2 == 'S' || x.2 == 'Z') && x.2 == y.2 && x.3 == y.3);
+            if idle {
+                let since = *idle_since.get_or_insert(last_tree_at);
+                if now - since > 45_000_000_000 {
+                    return Watch::Stuck(format!(
+                        "{}: not returned, and every thread of this process and of its children has been asleep without using CPU for {} s: nothing can make progress (deadlock)",
+                        name,
+                        (now - since) / 1_000_000_000
+                    ));
+                }
+            } else {
+                idle_since = None;
+            }
+            last_tree = cur;
+            last_tree_at = now;
         }
         if let Some(s) = settled_at {
             if now - s > grace_ms * 1_000_000 {
@@ -588,7 +640,7 @@ pub fn watch<T: Send + 'static>(
                 };
             }
         }
-        if now - t0 > hard_cap_ms * 1_000_000 {
+        if now - t0 > hard_cap_ms * 1_000_000 && idle_since.is_none() {
             return Watch::Unknown(format!("{}: watchdog ({} ms) fired before the scenario settled", name, hard_cap_ms));
         }
     }
